@@ -324,6 +324,30 @@ struct SoloSched : xv::Scheduler {
   uint64_t choice(uint64_t n) override { return rnd.choice(n); }
 };
 
+// C16, systematic: thread `a` runs `aops` whole operations and then `k` more steps (it is then stopped inside an operation),
+// then thread `b` runs alone if its next operation is documented lock-free
+struct SoloSweepSched : xv::Scheduler {
+  PhaseSched ph; int b; long budget; Adapter* A; const Case* c; bool started = false, skipped = false;
+  SoloSweepSched(int a, long aops, long k, int b_, long bud, Adapter* ad, const Case* cs) : b(b_), budget(bud), A(ad), c(cs) { ph.ph = {{a, -1, aops}, {a, k, -1}}; }
+  int pick(long step, int cur, uint32_t en) override {
+    if (started) return b;
+    if (ph.cur < ph.ph.size()) { int t = ph.pick(step, cur, en); if (ph.cur < ph.ph.size()) return t; }
+    if (!skipped && (en & (1u << b))) {
+      int i = g_cur_op[b];
+      if (i >= 0 && i < (int)c->prog[b - 1].size() && A->lock_free(*c, c->prog[b - 1][i])) {
+        started = true; xv::set_solo(b, budget);
+        g_solo_at = (long)xv::partial_result().schedule.size(); g_solo_tid = b; g_solo_budget = budget;
+        return b;
+      }
+    }
+    skipped = true;
+    if (cur > 0 && (en & (1u << cur))) return cur;
+    for (int i = 1; i < 32; i++) if (en & (1u << i)) return i;
+    return 0;
+  }
+  uint64_t choice(uint64_t) override { return 0; }
+};
+
 struct SoloReplay : xv::ReplaySched {   // replay of a C16 finding: after `solo_at` decisions only `solo_tid` runs
   long solo_at; int solo_tid; long budget; long n = 0; bool on = false;
   int pick(long step, int cur, uint32_t en) override {
@@ -416,6 +440,21 @@ inline int main_driver(int argc, char** argv, std::function<Adapter*()> mk) {
       report("solo");
       return found_kinds.empty() ? 0 : 1;
     }
+    if (o.strategy == "solosweep") {
+      for (int a = 1; a <= nthreads; a++) for (int b = 1; b <= nthreads; b++) if (a != b) {
+        long nops_a = (long)c.prog[a - 1].size();
+        for (long ia = 0; ia < nops_a; ia++) {
+          for (long k = 0; k < o.n; k++) {
+            Adapter* Ap = nullptr;
+            run_child([&]() { Ap = mk(); return Ap; }, c, o, [&]() -> xv::Scheduler* { return new SoloSweepSched(a, ia, k, b, o.solo_budget > 0 ? o.solo_budget : 5000, Ap, &c); }, sh);
+            if (handle()) { report("solosweep"); return 1; }
+            if (sh->nts > a && sh->tsteps[a] < k) break;   // a finished its operation before k steps: deeper k add nothing
+          }
+        }
+      }
+      report("solosweep");
+      return found_kinds.empty() ? 0 : 1;
+    }
     if (o.strategy == "opseq") {
       for (long k = 0; k < o.n; k++) {
         uint64_t sd = o.seed * 1000003ull + (uint64_t)k;
@@ -444,9 +483,14 @@ inline int main_driver(int argc, char** argv, std::function<Adapter*()> mk) {
       for (int a = 1; a <= nthreads; a++) for (int b = 1; b <= nthreads; b++) for (int cc = 1; cc <= nthreads; cc++) {
         if (a == b || b == cc || a == cc) continue;
         long nops_a = (long)c.prog[a - 1].size();
-        for (long ia = 0; ia <= nops_a; ia++) {
+        for (long ia = 0; ia <= nops_a; ia++) for (int order = 0; order < 2; order++) {
+          // order 0: a's operations first, then c's k steps; order 1: c's k steps first (c is already k steps into its own
+          // operations - e.g. has announced an older epoch / passed a quiescent state - when a takes its guards)
           for (long k = 0; k < o.n; k++) {
-            run_child(mk, c, o, [&]() -> xv::Scheduler* { auto* p = new PhaseSched(); p->ph = {{a, -1, ia}, {cc, k, -1}, {b, -1, -1}, {cc, -1, -1}, {a, -1, -1}}; return p; }, sh);
+            run_child(mk, c, o, [&]() -> xv::Scheduler* { auto* p = new PhaseSched();
+              if (order == 0) p->ph = {{a, -1, ia}, {cc, k, -1}, {b, -1, -1}, {cc, -1, -1}, {a, -1, -1}};
+              else p->ph = {{cc, k, -1}, {a, -1, ia}, {b, -1, -1}, {cc, -1, -1}, {a, -1, -1}};
+              return p; }, sh);
             if (handle()) { report("phase3"); return 1; }
             if (sh->nts > cc && sh->tsteps[cc] < k) break;
           }
